@@ -9,7 +9,7 @@ parse_cstring_from_stream chunk-loop structure.
 import ast
 import re
 from sa.world import get_world
-from sa import layout, expr, paths, streams, dispatch, dwconf
+from sa import wrap, layout, expr, paths, streams, dispatch, dwconf
 from sa.report import AnalysisError
 
 CU = 'common/construct_utils.py'
@@ -185,15 +185,11 @@ def check_repeat(ctx, w):
 
 def check_wrap(ctx, w):
     f = w.model.func(UT, 'struct_parse')
-    trys = [n for n in f.node.body if isinstance(n, ast.Try)]
-    ok = len(trys) == 1 and len(f.node.body) <= 2
-    body = [ast.unparse(s).split('\n')[0] for s in trys[0].body] if trys else []
-    ctx.ob('K-WRAP', f.construct, 'seek and parse inside one try', ok and body == ['if stream_pos is not None:', 'return struct.parse_stream(stream)'], got=body)
-    ok = bool(trys) and len(trys[0].handlers) == 1 and ast.unparse(trys[0].handlers[0].type) == 'ConstructError' and \
-        'raise ELFParseError(' in ast.unparse(trys[0].handlers[0])
-    ctx.ob('K-WRAP', f.construct, 'ConstructError -> ELFParseError', ok)
-    ifs = [n for n in ast.walk(f.node) if isinstance(n, ast.If)]
-    ctx.ob('K-WRAP', f.construct, 'absolute seek iff a position is given', len(ifs) == 1 and [ast.unparse(s) for s in ifs[0].body] == ['stream.seek(stream_pos)'])
+    facts = wrap.wrap_facts(f.node)
+    ctx.ob('K-WRAP', f.construct, 'the result of struct.parse_stream(stream) is returned from inside a try', facts['parse_is_parse_stream_of_args'] and facts['returns_parse_result'], got=facts)
+    ctx.ob('K-WRAP', f.construct, 'ConstructError -> ELFParseError', facts['parse_construct_error_converted'] and facts['no_handler_swallows'], got=facts,
+           msg='a construct error (short read, bad mapping, range) must surface as ELFParseError, and no handler may swallow it')
+    ctx.ob('K-WRAP', f.construct, 'absolute seek iff a position is given', facts['seek_is_absolute_to_position'] and facts['seek_iff_position_given'], got=facts)
     for cn in ('FieldError', 'ArrayError', 'AdaptationError', 'MappingError', 'RangeError', 'SwitchError', 'SizeofError', 'PaddingError'):
         lst = w.model.classes.get(cn, [])
         ok = len(lst) >= 1 and all(c.is_subclass_of('ConstructError') for c in lst)
